@@ -11,7 +11,9 @@ _spec.loader.exec_module(_g)
 RULE = ('search p_thick_bbox: thick polylines (2..6 vertices, widths 2..30, weighted towards widths 2..4 where a join can collapse to one '
         'point) and stroked triangles (all alignments): every pixel drawn lies inside the styled bounding box')
 PARTIAL = ['C02_join_polyline_drawn_in_bbox_partial (full statement: every pixel of a thick polyline lies in the styled bounding box; proved when no '
-           'segment is a skeleton and corners lie within +-2^29; the skeleton case and stroked triangles are covered by the search p_thick_bbox)']
+           'segment is a skeleton and corners lie within +-2^29; the skeleton case is covered by the search p_thick_bbox)',
+           'C02_join_triangle_stroke_in_bbox_partial (stroke lines of triangles with Center / Outside alignment and width >= 2, no skeleton segment; fill lines, '
+           'Inside alignment and widths < 2 are covered by p_thick_bbox and by C02_tri)']
 
 
 def search(tier, rng):
